@@ -32,6 +32,10 @@ def run(c):
         if i % 23 == 1:
             s.update(slow=True, burst=1)    # a signer that takes longer than a second (hardware token): the clock ticks during the call
         scen.append(s)
+    # updates whose RSA signature value begins with a zero octet (the harness renames the variable until one comes out)
+    lz = c.tlc("MC_SignVar", "sig.cfg", files={"sig.cfg": cfg.replace("INIT Init", "INIT SigInit").replace("INVARIANT AllBind\n", "")}, name="signature-value-shapes").json_lines()
+    for g in lz:
+        scen.append(dict(g, sc=len(scen), via="SignEFIVariable", burst=1))
     env = dict(os.environ, VERIF_FIXTURES=os.path.join(vf.VERIF, "fixtures"))
     res, deaths = c.run_worker("signvar", scen, env=env, timeout=2400)
     events, owner = [], []
